@@ -88,7 +88,12 @@ TREE_ASSUME = ["revisions are built with the crate's own constructors (index = p
 
 
 def c05(tier):
-    return dict(jobs=tree_jobs(tier), bounds=TREE_BOUNDS, assumptions=TREE_ASSUME,
+    jobs = tree_jobs(tier)
+    # Melda level: in_conflict / get_conflicting / get_winner agree with each other (asserted by the shared state() helper in every
+    # Melda-level harness); two live leaves with the same content digest
+    jobs.append(Job("h_c07::same_digest_leaves", (), dict(S2), budget_s=600, validate=4))
+    jobs.append(Job("h_c07::resolve_three", (), dict(S2), budget_s=3000, validate=10))
+    return dict(jobs=jobs, bounds=TREE_BOUNDS, assumptions=TREE_ASSUME,
                 note="revisiontree.rs (add/unvalidated_add/validate/is_valid_cached/get_leafs/get_winner) + revision.rs from MIR; oracle h_tree::check_against_spec")
 
 
@@ -159,6 +164,7 @@ def c02(tier):
     jobs.append(Job("h_c02::dedup_across_packs", (), dict(S2), budget_s=600, validate=1))
     jobs.append(Job("h_c02::own_pack_required", (), dict(S2), budget_s=600, validate=10))
     jobs.append(Job("h_c02::dedup_update", (), dict(S2), budget_s=600, validate=1))
+    jobs.append(Job("h_c02::foreign_stage_block", (), dict(S2), budget_s=600, validate=4))
     return dict(jobs=jobs, bounds={"own pack": "a block whose only object is also stored in another replica's pack (symbolic value): visible exactly when block and its own pack are both delivered, either order", "dedup scenario": "a parentless block whose pack omits an object that is stored only in the pack of another, held-back block (one concrete scenario)", "history 0": "c1 <- c2 (2 blocks + 2 packs): all 24 delivery orders of the 4 files, second document among k orders with a symbolic value",
                                    "history 1": "c1 <- cA, c1 <- cB, {cA,cB} <- cM with c1 pre-delivered: all 720 delivery orders of the remaining 6 files",
                                    "after every delivered file": "refresh; state == recorded state of exactly the causally complete blocks; state == Melda::new on the same storage",
@@ -232,6 +238,9 @@ def c18(tier):
     jobs.append(Job("h_c04::observer_chain", (7, 2), dict(S2), budget_s=3000, validate=20))
     # three concurrent inserts at one array position, learnt in any order, with 1 (thorough: 2) reversed hash iterations
     jobs.append(Job("h_c18::three_way", (), dict(S2, nd_budget=1 if tier == "quick" else 2), budget_s=3000, validate=20, native_repeats=3))
+    # identical payloads stored by two writers, relayed through a replica with either listing order
+    jobs.append(Job("h_c18::relay_duplicates", (0,), dict(S2), budget_s=600, validate=4))
+    jobs.append(Job("h_c18::relay_duplicates", (1,), dict(S2), budget_s=600, validate=4))
     return dict(jobs=jobs, bounds={"history": "commit, commit (second document among k orders, optionally staged-discarded-restaged), concurrent commit on a second replica, exchange, reopen",
                                    "compared": "a run with canonical orders and default caches vs a run in which at most nd_budget iteration events (hash-table iterations, visits of the sequentialised worker pool) "
                                                "use the reverse order, the storage lists in reverse order, and both cache capacities are a symbolic value in 1..3",
@@ -283,6 +292,8 @@ def c13(tier):
     combos = [(4, 0)] if tier == "quick" else [(4, 0), (4, 1), (8, 0)]
     jobs = [Job("h_hist::commit_graph", c, dict(S2), budget_s=3000, validate=30) for c in combos]
     jobs.append(Job("h_hist::meld_after_travel", (4 if tier == "quick" else 8,), dict(S2), budget_s=3000, validate=20))
+    # a stored block whose parent list holds an entry that is not a block identifier never joins the graph (job shared with C10)
+    jobs.append(Job("h_c10::crafted_block", (), dict(S2), budget_s=600, validate=3))
     return dict(jobs=jobs, bounds={"history": "c1 <- cA (replica a), c1 <- cB (replica b), merge commit {cA,cB} <- cM, cM <- c5; documents among the first k element orders; commit metadata with a symbolic printable char, nested object, empty object and None",
                                    "combos [k, symbolic values]": [list(c) for c in combos],
                                    "meld after travel": "time travel to any block, then meld of a block committed elsewhere on the latest heads, refresh: heads ancestor-free, equal to a reopened replica"},
@@ -306,7 +317,8 @@ def c07(tier):
             Job("h_c07::resolve_object", (2,), dict(S2), budget_s=3000, validate=30),
             Job("h_c07::resolve_both", (), dict(S2), budget_s=3000, validate=30),
             Job("h_c07::resolve_three", (), dict(S2), budget_s=3000, validate=30),
-            Job("h_c12::resolve_array_conflict", (10,), dict(S2), budget_s=3000, validate=30)]
+            Job("h_c12::resolve_array_conflict", (10,), dict(S2), budget_s=3000, validate=30),
+            Job("h_c07::same_digest_leaves", (), dict(S2), budget_s=600, validate=4)]
     return dict(jobs=jobs, bounds={"scenario": "base [a,b]; each replica concurrently updates a to a symbolic value or deletes it; exchange; every live leaf chosen; commit; propagate / independent resolutions on both replicas"},
                 assumptions=S2_ASSUME, note="melda.rs resolve_as / update_object / delete_object / get_* / read / commit / meld / refresh from MIR")
 
@@ -333,7 +345,8 @@ def c10(tier):
             Job("h_c10::damaged_merge", (), dict(S2), budget_s=3000, validate=16),
             Job("h_c10::live_damage", (), dict(S2), budget_s=3000, validate=3),
             Job("h_c10::live_read_damage", (), dict(S2), budget_s=3000, validate=20),
-            Job("h_c10::repaired_damage", (), dict(S2), budget_s=3000, validate=4)]
+            Job("h_c10::repaired_damage", (), dict(S2), budget_s=3000, validate=4),
+            Job("h_c10::crafted_block", (), dict(S2), budget_s=600, validate=3)]
     return dict(jobs=jobs, bounds={"history": "one replica, two commits (2 blocks + 2 packs)",
                                    "junk": "names <digits{1..11}>-<word{1,2}>.delta, <word{1..3}>.delta/.pack, revision-like names; content <= 2 symbolic bytes",
                                    "repaired": "a pack first seen truncated / with one wrong byte (with or without its block), complete at a later refresh: live replica = reopened replica = full state", "re-read": "every byte position of the first pack replaced by any other byte after a live replica (object cache capacity 1) has read all objects; every object read again", "damage": "any one of the 4 items removed, emptied, truncated by one byte or to half, or one byte (first/middle/last) replaced by any different byte"},
